@@ -9,7 +9,7 @@
    BlockScanner and the regress check of BlockRecoverRunner read back - over whatever older content the block held
    before - is exactly the list of entries the flusher wrote into it, in order, at the addresses given to the indexer. *)
 From Coq Require Import List NArith Bool Sorted.
-From FV Require Import Disk.Codec Disk.BlobIndex Disk.BlobIndexProofs Disk.Splitter Disk.SplitterProofs Disk.Scan Disk.ScanProofs.
+From FV Require Import Disk.Codec Disk.BlobIndex Disk.BlobIndexProofs Disk.Splitter Disk.SplitterProofs Disk.Scan Disk.ScanProofs Disk.ScanBytes.
 Import ListNotations.
 Open Scope N_scope.
 
@@ -113,3 +113,30 @@ Theorem c07_index_page_roundtrip : forall cksum, (forall b, (cksum b < 256 ^ 8)%
   bidx_read cksum (bidx_page cksum es rest) = BOk es.
 Proof. exact bidx_roundtrip. Qed.
 Print Assumptions c07_index_page_roundtrip.
+
+(* ... and therefore the scan of a block's BYTES: a block whose index-page-sized areas hold the sealed pages of what the
+   flusher wrote (over stale pages of the previous generation, and bytes the reader does not accept everywhere else) is
+   recovered, byte level, as exactly the entries written (Disk/ScanBytes.v: [represents], [rd_bytes]) *)
+Theorem c07_scan_exact_bytes : forall cksum, (forall b, (cksum b < 256 ^ 8)%N) ->
+  forall B I, pa B -> pa I -> I < B -> 0 < icap I ->
+  forall bs c out g stale dev,
+  Forall (Forall (eok B I)) bs -> split_batches B I (init_ctx I) bs = Some (c, out) ->
+  let ps := block_parts g (globalize 0 out) in
+  ps <> [] ->
+  nondec 0 (all_infos ps) ->
+  (forall o l i x, stale o = Some l -> In i l -> In x (all_infos ps) -> i_seq i < n_seq x) ->
+  represents cksum dev (rd (written I ps) stale) ->
+  recover_block B I (rd_bytes cksum dev) = all_infos ps.
+Proof.
+  intros cksum Hck B I HB HI HIB Hc bs c out g stale dev Hbs Hsp ps Hne Hnd Hst Hrep.
+  rewrite (recover_block_bytes cksum Hck B I dev _ Hrep).
+  exact (c07_scan_exact B I HB HI HIB Hc bs c out g stale Hbs Hsp Hne Hnd Hst).
+Qed.
+Print Assumptions c07_scan_exact_bytes.
+
+Example c07_scan_bytes_nonvacuous :
+  let ck := fun b : bytes => fold_left N.add b 7 in
+  let l := [mkIdx 1 7 4096 100; mkIdx 2 8 8192 100] in
+  let dev := fun o => if o =? 0 then bidx_page ck (map bent_of_idx l) [9; 9] else [0;0;0;0;0;0;0;0;0;0;0;0] in
+  recover_block 65536 4096 (rd_bytes ck dev) = [mkInfo 1 7 4096 100; mkInfo 2 8 8192 100].
+Proof. vm_compute. reflexivity. Qed.
